@@ -199,7 +199,7 @@ PROPS = {
         "required_theorems": ["c08_sync_chunk_independent", "c08_sync_prefix", "c08_sync_window", "c08_skip", "c08_delay",
                               "c08_rtlsdr", "c08_no_panic_hand", "c08_resampler", "c08_fir", "c08_gated", "c08_gated_prefix",
                               "c08_zerocrossing_no_panic", "c08_generator_source", "c08_generator_source_prefix",
-                              "c08_vector_sink"],
+                              "c08_vector_sink", "c08_cma"],
         "runs": [
             # valid IL2P transmissions (library test vector + sync tags) between noise: frames must survive any chunking
             {"sub": "blocks", "quick": ["--seed", "{seed}", "--mode", "self", "--set", "every", "--block", "il2p", "--cases", 250,
